@@ -12,6 +12,7 @@ Inductive cexp : Type :=
 (* classification of one emitted target-language statement *)
 Inductive akind : Type :=
 | KGuard | KElse | KLoop | KReturn | KCursor | KStore | KCall | KDecl | KOpen | KClose | KPre | KSAssert | KRAssert | KMacro
+| KRaw       (* declaration templates: one emitted line verbatim, not classified *)
 | KExpr.     (* an expression fragment: the body of a macro / block set that yields a value *)
 
 Inductive tnode : Type :=
